@@ -6,6 +6,7 @@ CONSTANTS
   SingleCuts = "@SINGLECUTS@"
   CorrEveryK = @CORREVERYK@
   LenMasks = @LENMASKS@
+  PadKs = @PADKS@
   Plans = @PLANS@
 INIT Init
 NEXT Next
